@@ -276,14 +276,15 @@ def known_findings(prop):
 
 # ------------------------------------------------------------------ evidence / verdict
 def write_evidence(prop, tier, seed, coverage, assumptions, wall, violations):
-    os.makedirs(os.path.join(VERIF, 'evidence'), exist_ok=True)
+    evdir = os.environ.get('VERIF_EVIDENCE_DIR') or os.path.join(VERIF, 'evidence')   # seed evaluation writes elsewhere
+    os.makedirs(evdir, exist_ok=True)
     ev = dict(property_id=prop, tier=tier, seed=seed, level='proof', coverage=coverage,
               assumptions=assumptions, wall_s=round(wall, 2), violations=violations)
-    tmp = os.path.join(VERIF, 'evidence', prop + '.json.tmp')
+    tmp = os.path.join(evdir, prop + '.json.tmp')
     with open(tmp, 'w') as f:
         json.dump(ev, f, indent=1, sort_keys=True)
         f.write('\n')
-    os.replace(tmp, os.path.join(VERIF, 'evidence', prop + '.json'))
+    os.replace(tmp, os.path.join(evdir, prop + '.json'))
 
 
 def write_replay(prop, seed, n, content):
